@@ -169,9 +169,11 @@ def c14_histories(tier, seed):
                     g.teardown(); trace.append(("teardown",))
                     for p in registered:
                         if p["kind"] == "path" and p["expect"]: p["ever_disconnected_with_output"] = True
-                    registered = []
+                    was_registered, registered = registered, []
                 if op in ("flush", "teardown"):
-                    for p in pool:
+                    # the statement speaks about the outputs the builder flushes / tears down: the writers registered at that moment
+                    # (a writer removed earlier keeps its own buffer until somebody flushes or closes it)
+                    for p in (registered if op == "flush" else was_registered):
                         if p["kind"] == "path":
                             got = open(p["sink"], "rb").read() if os.path.exists(p["sink"]) else b""
                         elif p["kind"] == "text": got = p["sink"].getvalue().encode("utf-8")
@@ -457,7 +459,7 @@ def _tracer_bounded(tier, seed):
                 while j < len(va) and math.dist(va[j], c) > res: j += 1
                 if j == len(va): bad.append({"property": "C10", "shape": sh, "start": start, "resolution": res, "why": f"control point {c} not approached within one resolution, in order"}); break
             if bad: break
-        if sh["kind"] == "polyline" and [tuple(round(c, 6) for c in p) for p in va] != [tuple(round(c, 6) for c in p) for p in sh["points"]]:
+        if sh["kind"] == "polyline" and (len(va) != len(sh["points"]) or any(max(abs(a - b) for a, b in zip(p, q)) > 1e-6 for p, q in zip(va, sh["points"]))):
             bad.append({"property": "C10", "shape": sh, "start": start, "why": "polyline does not visit exactly the given points"}); break
         # C12
         if sh["kind"] in ("arc", "circle", "arc_radius") and len(va) >= 4:
